@@ -46,6 +46,17 @@ def run_property(pid, tier, seed, only=None, keep=False, nworkers=16):
     b_results = []
     try:
         scr.prepare(jobs)
+        import threading
+        bthread = None
+        if engine_b:
+            # engine B (seconds to a minute of solver time) runs alongside the Kani jobs
+            def run_b():
+                try:
+                    b_results.extend(engine_b(tier, seed, scr))
+                except Exception as e:  # pragma: no cover
+                    b_results.append({"id": "engine-B", "obligation": "engine-B", "status": "inconclusive", "reason": "engine B crashed: %r" % e, "wall_s": 0})
+            bthread = threading.Thread(target=run_b, daemon=True)
+            bthread.start()
         if jobs:
             ok, msg = kani.build_template(scr)
             if not ok:
@@ -57,8 +68,8 @@ def run_property(pid, tier, seed, only=None, keep=False, nworkers=16):
                 def progress(r):
                     print("  [%s] %-28s %6.1fs  %s" % (r.status[:4], r.job.id, r.wall_s, r.reason[:150]), flush=True)
                 results = kani.run_jobs(scr, jobs, nworkers=nworkers, seed=seed, progress=progress)
-        if engine_b:
-            b_results = engine_b(tier, seed, scr)
+        if bthread:
+            bthread.join()
             for b in b_results:
                 print("  [%s] %-28s %6.1fs  %s" % (b["status"][:4], b["id"], b.get("wall_s", 0), b.get("reason", "")[:150]), flush=True)
         # ---- counterexamples -> native replay
